@@ -325,7 +325,9 @@ func (stmt *Statement) BuildCondition(query interface{}, args ...interface{}) []
 		case clause.Expression:
 			conds = append(conds, v)
 		case *DB:
-			v.executeScopes()
+			// run the scopes on an instance of the sub-builder: a reusable one is not to be changed, and
+			// the scopes' conditions live on the handle they return
+			v = v.getInstance().executeScopes()
 
 			if cs, ok := v.Statement.Clauses["WHERE"]; ok {
 				if where, ok := cs.Expression.(clause.Where); ok {
